@@ -127,6 +127,13 @@ func keepaliveExtract(c *Ctx) {
 	sort.Strings(guards)
 	c.Fact("keepalive.start_guards", guards)
 
+	// the order of the statements of the two Close methods: keep-alive must be cancelled before
+	// anything that can fail or leave the function (KeepAlive.close_cancels_keepalive)
+	clientPath, clientDesc := kaClosePath(c, "ClientSession", bad)
+	serverPath, serverDesc := kaClosePath(c, "ServerSession", bad)
+	c.Fact("keepalive.close_path.client", clientDesc)
+	c.Fact("keepalive.close_path.server", serverDesc)
+
 	var b strings.Builder
 	w := func(format string, a ...any) { fmt.Fprintf(&b, format, a...) }
 	w("namespace Generated.KeepAlive\n")
@@ -138,6 +145,10 @@ func keepaliveExtract(c *Ctx) {
 	w("def tolerated (fails thr : Int) : Bool := %s\n", tolerate)
 	w("/-- the error on which the loop stops silently: `errors.Is(err, %s)` -/\n", sentinel)
 	w("def stopSentinel : String := %s\n", LeanStr(sentinel))
+	w("/-- top-level statements of (*ClientSession).Close, classified -/\n")
+	w("def clientClosePath : List String := %s\n", LeanStrList(clientPath))
+	w("/-- top-level statements of (*ServerSession).Close, classified -/\n")
+	w("def serverClosePath : List String := %s\n", LeanStrList(serverPath))
 	w("end Generated.KeepAlive\n")
 	c.Lean["KeepAliveGen"] = b.String()
 }
@@ -248,4 +259,76 @@ func kaGoroutine(c *Ctx, fl *ast.FuncLit, bad func(string, ...any), timeout, tim
 		}
 	}
 	return out
+}
+
+// kaClosePath classifies the top-level statements of (*recv).Close for KeepAlive.execClose:
+// cancelKeepalive (`if x.keepaliveCancel != nil { x.keepaliveCancel() }`), connClose
+// (`err := x.conn.Close()`), returnIfErr (`if err != nil { …return… }`), ret, mayReturn (any other
+// statement with a return/goto/panic outside function literals), plain.
+func kaClosePath(c *Ctx, recv string, bad func(string, ...any)) (acts, desc []string) {
+	fd := c.Func("mcp", recv, "Close")
+	if fd == nil || fd.Body == nil || fd.Recv == nil || len(fd.Recv.List) == 0 || len(fd.Recv.List[0].Names) == 0 {
+		bad("mcp.(*%s).Close not found", recv)
+		return []string{"ret"}, []string{"?"}
+	}
+	x := fd.Recv.List[0].Names[0].Name
+	leaves := func(n ast.Node) bool {
+		out := false
+		ast.Inspect(n, func(m ast.Node) bool {
+			switch v := m.(type) {
+			case *ast.FuncLit:
+				return false
+			case *ast.ReturnStmt:
+				out = true
+			case *ast.BranchStmt:
+				if v.Tok == token.GOTO {
+					out = true
+				}
+			case *ast.CallExpr:
+				switch c.Src(v.Fun) {
+				case "panic", "os.Exit", "runtime.Goexit", "log.Fatal", "log.Fatalf":
+					out = true
+				}
+			}
+			return true
+		})
+		return out
+	}
+	for _, st := range fd.Body.List {
+		src := c.Src(st)
+		kind := "plain"
+		switch s := st.(type) {
+		case *ast.ReturnStmt:
+			kind = "ret"
+		case *ast.AssignStmt:
+			if src == "err := "+x+".conn.Close()" || src == "err = "+x+".conn.Close()" {
+				kind = "connClose"
+			} else if leaves(st) {
+				kind = "mayReturn"
+			}
+		case *ast.IfStmt:
+			cond := c.Src(s.Cond)
+			switch {
+			case s.Init == nil && s.Else == nil && cond == x+".keepaliveCancel != nil" && len(s.Body.List) == 1 && c.Src(s.Body.List[0]) == x+".keepaliveCancel()":
+				kind = "cancelKeepalive"
+			case s.Init == nil && cond == "err != nil" && leaves(st):
+				kind = "returnIfErr"
+			case leaves(st):
+				kind = "mayReturn"
+			}
+		default:
+			if leaves(st) {
+				kind = "mayReturn"
+			}
+		}
+		if kind != "cancelKeepalive" && strings.Contains(src, "keepaliveCancel") {
+			bad("(*%s).Close touches keepaliveCancel in an unexpected shape: %s", recv, src)
+		}
+		acts = append(acts, kind)
+		if len(src) > 90 {
+			src = src[:90] + "…"
+		}
+		desc = append(desc, kind+": "+src)
+	}
+	return acts, desc
 }
